@@ -994,56 +994,77 @@ func runC15(c *Ctx) {
 	c.R.Check(okCover, "R-C15-2", name+":covered-test", name, c.pos(cur.Pos()), fmt.Sprintf("covered decision conjunctions: %v; %s", coverConj, roles),
 		"dropped only when another route (≠ itself) contains it AND is shorter (a length comparison is part of the test)",
 		"two routes with the same base address but different lengths eliminate each other (neither is advertised)")
-	// R-C15-3 each once
-	dedupe := false
+	// R-C15-3 each once: either a seen-set keyed by the appended value (membership test + insert on the keep path),
+	// or a compaction of the *sorted* result (slices.Compact only removes adjacent duplicates).
+	compactAfterSort := func() bool {
+		ok := false
+		for _, p := range rets {
+			if len(p.Results) != 2 || !exprIsNil(p.Results[1]) {
+				continue
+			}
+			var seq []string
+			var compactRes *an.Expr
+			p.Instrs(func(in ssa.Instruction) {
+				ci, isCall := in.(ssa.CallInstruction)
+				if !isCall {
+					return
+				}
+				f := an.CalleeObj(ci.Common())
+				if f == nil || f.Pkg() == nil {
+					return
+				}
+				if (f.Pkg().Path() == "slices" || f.Pkg().Path() == "sort") && strings.HasPrefix(f.Name(), "Sort") {
+					seq = append(seq, "sort")
+				}
+				if f.Pkg().Path() == "slices" && strings.HasPrefix(f.Name(), "Compact") {
+					seq = append(seq, "compact")
+					if v, isV := in.(ssa.Value); isV {
+						compactRes = p.Of(v)
+					}
+				}
+			})
+			good := strings.Join(seq, ",") == "sort,compact" && compactRes != nil && sameValue(compactRes, p.Results[0])
+			if !good {
+				return false
+			}
+			ok = true
+		}
+		return ok
+	}
+	seenSet := len(keeps) > 0
 	for _, ks := range keeps {
+		has := false
 		for _, k := range ks {
 			if k == "-Seen" {
-				dedupe = true
+				has = true
 			}
 		}
-	}
-	for _, p := range rets {
-		compact := callsOnPath(p, func(cc *ssa.CallCommon) bool {
-			f := an.CalleeObj(cc)
-			return f != nil && f.Pkg() != nil && f.Pkg().Path() == "slices" && strings.HasPrefix(f.Name(), "Compact")
-		})
-		if len(compact) > 0 {
-			dedupe = true
+		if !has {
+			seenSet = false
 		}
 	}
-	if dedupe {
-		// insertion on the keep path
+	if seenSet {
 		for _, it := range iters {
 			if len(it.appends) == 0 {
 				continue
 			}
-			okIns := false
+			okIns, okKey := false, false
 			it.p.Instrs(func(in ssa.Instruction) {
 				if mu, ok := in.(*ssa.MapUpdate); ok && len(it.appends) == 1 && it.p.Of(mu.Key).String() == it.appends[0].String() {
 					okIns = true
 				}
 			})
-			okKey := false
 			for _, a := range it.p.Atoms {
-				if filterKind(a) == "Seen" && a.Cond.Args[0].Args[1].String() == it.appends[0].String() {
+				if filterKind(a) == "Seen" && len(it.appends) == 1 && a.Cond.Args[0].Args[1].String() == it.appends[0].String() {
 					okKey = true
 				}
 			}
 			if !(okIns && okKey) {
-				compactFound := false
-				for _, p := range rets {
-					if len(callsOnPath(p, func(cc *ssa.CallCommon) bool {
-						f := an.CalleeObj(cc)
-						return f != nil && f.Pkg() != nil && f.Pkg().Path() == "slices" && strings.HasPrefix(f.Name(), "Compact")
-					})) > 0 {
-						compactFound = true
-					}
-				}
-				dedupe = compactFound
+				seenSet = false
 			}
 		}
 	}
+	dedupe := seenSet || compactAfterSort()
 	c.R.Check(dedupe, "R-C15-3", name+":each-once", name, c.pos(cur.Pos()), fmt.Sprintf("kept routes are deduplicated (membership+insert on the appended value, or compaction): %v", dedupe),
 		"each remaining route is emitted once", "a route present twice in the dump (e.g. on two loopback interfaces) is advertised twice")
 	// kept value is the route's prefix
